@@ -251,7 +251,14 @@ func (s *sshProxyService) Handle(ctx context.Context, conn net.Conn) error {
 				log.Error(err.Error())
 			}
 
-			dst.Close()
+			// the source is done sending, the other direction may still carry
+			// data: close the write side only (the channels are closed when
+			// their request streams end)
+			if cw, ok := dst.(interface{ CloseWrite() error }); ok {
+				cw.CloseWrite()
+			} else {
+				dst.Close()
+			}
 		}
 
 		var wrappedChannel io.ReadCloser = channel
